@@ -64,6 +64,8 @@ Proof. apply c12_count. reflexivity. Qed.
 Example ex_iter : exists l, iter_bits s3 = Some (cap s3, l) /\ StronglySorted N.lt l /\
             (forall i, In i l <-> i < cap s3 /\ mem s3 i = true) /\ next s3 (cap s3) = Some (None, cap s3).
 Proof. apply c12_iter_bits; reflexivity. Qed.
+Example ex_iter_once : NoDup [0; 63; 129].
+Proof. apply (c12_iter_bits_each_once s3 _ 192); reflexivity. Qed.
 Example ex_next : next s3 1 = Some (Some 63, 64) /\ next s3 130 = Some (None, 192).
 Proof. vm_compute. split; reflexivity. Qed.
 Example ex_eq : (beq s3 t3 = true <-> s3 = t3) /\ (s3 = t3 <-> forall i, i < cap s3 -> mem s3 i = mem t3 i).
